@@ -29,7 +29,7 @@ def _select(case):
     cands = [stub_class(i + 1, r) for i, r in enumerate(out)]
     win = set(_set(case['winners']))
     probs = []
-    for how in ('select_univariate', 'Univariate.fit', 'Univariate.fit(instances)'):
+    for how in ('select_univariate', 'Univariate.fit', 'Univariate.fit(instances)', 'copula(Univariate(candidates))', 'copula({col: Univariate(candidates)})'):
         try:
             if how == 'select_univariate':
                 inst = select_univariate(X.copy(), list(cands))
@@ -37,10 +37,18 @@ def _select(case):
                 u = Univariate(candidates=list(cands))
                 u.fit(X.copy())
                 inst = u._instance
-            else:
+            elif how == 'Univariate.fit(instances)':
                 u = Univariate(candidates=[c() for c in cands])
                 u.fit(X.copy())
                 inst = u._instance
+            else:
+                # the wrapper as the copula's prototype instance, its candidate list given positionally
+                from copulas.multivariate import GaussianMultivariate
+                proto = Univariate(list(cands))
+                m = GaussianMultivariate(distribution=proto if how.startswith('copula(U') else {'b': proto})
+                m.fit(pd.DataFrame({'a': X[::-1] * 2.0 + X, 'b': X.copy()}))
+                u = m.univariates[1]
+                inst = getattr(u, '_instance', u)
             pos = [i + 1 for i, c in enumerate(cands) if type(inst) is c]
             if not pos or pos[0] not in win:
                 probs.append(('selected-candidate-not-of-minimal-KS', '%s chose position %s for outcomes %s (minimal: %s)' % (how, pos, out, sorted(win))))
@@ -158,7 +166,7 @@ def _dispatch(case):
     raises = set(_set(case['raises']))
     named = set(_set(case['named']))
     for i in raises:
-        df[cols[i - 1]] += 1000.0
+        df[cols[i - 1]] += 1000.0 * (1 + (3 * i + n + len(named) + len(case['form'])) % 11)      # the shift selects the exception type (stubs.ERRORS)
     form = case['form']
     if form == 'default':
         kw = {}
